@@ -4,6 +4,7 @@ C15 — imports merge into the importer; modules are isolated namespaces.
 import Just.Model.Imports
 import Just.Lemmas.LoaderChain
 import Just.Lemmas.LoaderFuel
+import Just.Lemmas.Path
 namespace Just.Props.C15
 open Just.Imports
 
@@ -271,5 +272,24 @@ has a longer repetition-free chain, and there are at most `maxItems` of them. -/
 theorem loader_terminates (fs : FS) (fuel : Nat) (hf : W (maxItems fs) fs.length < fuel) :
     load fs fuel ≠ .error .fuel :=
   load_no_fuel fs fuel hf
+
+/-! ### one file, several spellings
+
+The loader identifies a source by `parent.join(path).lexiclean()` (src/compiler.rs; model
+`Just.Path`): a cycle is a cycle, and a file imported along two paths is one file, however the
+statement spells the path. -/
+open Just.Path in
+/-- a `.` component anywhere, and a detour `name/..` anywhere, do not change which file a path names -/
+theorem path_spelling_irrelevant (d t : List Comp) (x : List Char) :
+    cleanComps (d ++ Comp.cur :: t) = cleanComps (d ++ t) ∧
+    cleanComps (d ++ Comp.normal x :: Comp.parent :: t) = cleanComps (d ++ t) := by
+  unfold cleanComps
+  simp [List.foldl_append, cleanStep]
+
+open Just.Path in
+/-- non-vacuity, on texts: three spellings of `/p/f3.just` -/
+example : lexiclean "/p/./f3.just".toList = "/p/f3.just".toList ∧
+    lexiclean "/p/pad/../f3.just".toList = "/p/f3.just".toList ∧
+    lexiclean "/p/sub/../f3.just".toList = lexiclean "/p/f3.just".toList := by decide
 
 end Just.Props.C15
